@@ -6,8 +6,9 @@ import JunoModel.C15.ModelStack
 /-!
 Line-protocol driver for the C15 model (`lake build c15drv`).
 
-  cfg a [r]        choose the db/memory variant (a = cbUnlocked; r = batch.DeleteRange recorded as a range,
-                   `mem2Impl` of ModelRange.lean, default 0 = materialised at call time, `memImpl`), reset
+  cfg a [r]        choose the db/memory variant (a = cbUnlocked; r = 1: batch.DeleteRange recorded as a range,
+                   `mem2Impl` of ModelRange.lean = the code now; r = 0: materialised at call time, `memImpl`, the
+                   code before 36de10a), reset. Default without `cfg`: 1 1
   reset            fresh worlds
   ub P | hasprefix K P
   newbuf | bufput B K V | bufdel B K | bufget B K F | bufflush B | bufwrite B | bufclose B | bufother B
@@ -218,4 +219,6 @@ def stepLine (s : St) (line : String) : St × String :=
       ({ s with mem := rm.1, mem2 := rm2.1, peb := rp.1, spec := rs.1 },
         showOut (if s.rangeLog then rm2.2 else rm.2) ++ " | " ++ showOut rp.2 ++ " | " ++ showOut rs.2 ++ " | " ++ b d ++ b m ++ b f)
 
-def main : IO Unit := loop stepLine (St.init ⟨false⟩)
+/-- default: db/memory as it is in /repo (callback outside the lock, range recorded); the harness sends
+`cfg` with what it probed on the real code before the first op -/
+def main : IO Unit := loop stepLine (St.init ⟨true⟩ true)
